@@ -5,6 +5,7 @@
 # TIER=thorough selects the tier. /repo is restored afterwards (git checkout -- .).
 V=${VERIF_DIR:-/verif}; R=${REPO_DIR:-/repo}
 cd $V || exit 2
+export VERIF_EVIDENCE_DIR=$V/scratch/seeded_evidence; mkdir -p $VERIF_EVIDENCE_DIR
 if [ -n "$(git -C $R status --porcelain --untracked-files=no)" ]; then echo "/repo has uncommitted changes; refusing"; exit 2; fi
 trap 'git -C $R checkout -- . ; git -C $R clean -fdq -- src tests' EXIT INT TERM
 NAMES="$*"
